@@ -528,6 +528,7 @@ func checkC01(c *Check, p *Program) {
 
 	// ---- (e) receivers
 	if udp != nil && tcp != nil {
+		checkHeaderValidation(c, p, "C01.e")
 		checkReceiverLoop(c, p, "C01.e", udp)
 		checkReceiverLoop(c, p, "C01.e", tcp)
 		checkReceiverProgress(c, p, udp, tcp)
@@ -1100,4 +1101,74 @@ func guardedIndexOK(base, idx ssa.Value, b *ssa.BasicBlock) bool {
 		}
 	}
 	return false
+}
+
+// checkHeaderValidation: a frame whose header does not announce length 6 and
+// protocol version 0x10 is malformed and must not be decoded further: the
+// header decoder succeeds for exactly those two values of its first two
+// octets (exact sets over the 8-bit domain).
+func checkHeaderValidation(c *Check, p *Program, rule string) {
+	uh := p.Func("knx/knxnet", "UnpackHeader")
+	if uh == nil {
+		c.Fail(rule, "knxnet.UnpackHeader", "", "not found")
+		return
+	}
+	var us *ssa.Call
+	instrsOf(uh, func(in ssa.Instruction) {
+		if call, ok := in.(*ssa.Call); ok && callIs(call, modPath+"/knx/util", "", "UnpackSome") && len(uh.Params) > 0 && call.Common().Args[0] == ssa.Value(uh.Params[0]) {
+			us = call
+		}
+	})
+	if us == nil {
+		c.Fail(rule, "knxnet.UnpackHeader validates length and version", p.Pos(uh.Pos()), "the header is not decoded by one util.UnpackSome over the input: the validated octets are not identified")
+		return
+	}
+	items, opaque := ifaceArgs(us, true)
+	if opaque || len(items) < 2 {
+		c.Fail(rule, "knxnet.UnpackHeader validates length and version", p.Pos(uh.Pos()), "header items not understood")
+		return
+	}
+	want := []int{6, 16}
+	what := []string{"header length", "protocol version"}
+	for i := 0; i < 2; i++ {
+		var cell *ssa.Alloc
+		if mi, isMI := items[i].(*ssa.MakeInterface); isMI {
+			cell, _ = stripPtrConv(mi.X).(*ssa.Alloc)
+		}
+		var ld ssa.Value
+		if cell != nil {
+			instrsOf(uh, func(x ssa.Instruction) {
+				if u, isU := x.(*ssa.UnOp); isU && u.Op == token.MUL && u.X == ssa.Value(cell) && ld == nil {
+					ld = u
+				}
+			})
+		}
+		acc := finSet{}
+		okS := ld != nil
+		if okS {
+			for _, r := range returnsOf(uh) {
+				if len(r.Results) < 2 || !p.returnMayBeNil(r, 1) {
+					continue
+				}
+				set, ok := finSetAtRoot(ld, r.Block(), ld)
+				if !ok {
+					okS = false
+					break
+				}
+				for v, in := range set {
+					if in {
+						acc[v] = true
+					}
+				}
+			}
+		}
+		other := -1
+		for v := 0; v < 256 && okS; v++ {
+			if acc[v] != (v == want[i]) {
+				other = v
+				break
+			}
+		}
+		c.Decide(okS && other < 0, rule, "knxnet.UnpackHeader accepts exactly "+what[i]+" "+fmt.Sprint(want[i]), p.Pos(uh.Pos()), "success is reachable for that value only", fmt.Sprintf("the header decoder's verdict for %s %d is wrong (or the octet is not examined at all): frames of another protocol revision or with a foreign header are decoded as if they were well-formed", what[i], other))
+	}
 }
